@@ -34,7 +34,9 @@ def catalogue(tier):
     sc.append(dict(cid="join_vs_last_leave", props=["C07", "C09", "C10", "C01"], setup=[J(1, 0, 1)],
                    block=[B(1, k="Disc"), BJ(2, 1, 2)], after=PROBE))
     sc.append(dict(cid="two_last_leaves_and_creator", props=["C07", "C09", "C10"], setup=[J(1, 0, 1), J(2, 1, 2)],
-                   block=[B(1, k="Disc"), B(2, k="Disc"), BJ(3, 0, 3)], after=PROBE))
+                   block=[B(1, k="Disc"), B(2, k="Disc"), BJ(3, 0, 3)], after=PROBE + [J(5, 0, 93)]))
+    sc.append(dict(cid="join_vs_last_leave_and_creator", props=["C07", "C09", "C10"], setup=[J(1, 0, 1)],
+                   block=[B(1, k="Disc"), BJ(2, 1, 2), BJ(3, 0, 3)], after=PROBE + [J(5, 0, 93)]))
     sc.append(dict(cid="two_creates", props=["C07", "C09", "C10"], setup=[],
                    block=[BJ(1, 0, 1), BJ(2, 0, 2)], after=PROBE + [J(5, 2, 92)]))
     sc.append(dict(cid="create_vs_join_by_id", props=["C07", "C09", "C10", "C01"], setup=[],
